@@ -55,6 +55,8 @@ TRUSTED = [
 
 DENSE = ("iso", "isol", "mds", "mdsl", "diff", "tri", "cli")
 SPARSE = ("klle", "kltsa", "hlle")
+ITER = ("tsne",)      # sentinel: t-SNE has no OpenMP region on the pinned tree; 51 iterations of TSNE::run
+TOL_ITER = 1e-7       # relative to the largest entry of the map: a re-associated reduction moves it by ~1e-13
 REGION_OF_FUNC = {   # descriptor name fragment -> harness region(s)
     "compute_shortest_distances_matrix#1": ["iso"], "compute_shortest_distances_matrix#2": ["isol"],
     "compute_distance_matrix#1": ["mdsl"], "compute_distance_matrix#2": ["mds"],
@@ -66,6 +68,8 @@ COMBOS_QUICK = ["1:1:0", "2:1:0", "2:2:1", "3:1:0", "3:2:1", "3:1:1", "8:1:0", "
 COMBOS_THOROUGH = COMBOS_QUICK + ["2:3:0", "3:3:0", "5:2:2", "8:1:1", "16:3:0", "16:1:1", "7:2:3"] + \
     ["%d:2:1" % t for t in (4, 6, 9, 10, 11, 12, 13, 14, 15)]      # every thread count 1..16 appears
 TOL = 1e-10
+LARGE_COMBOS = ["1:1:0", "2:1:0", "8:1:0", "16:1:0", "8:2:1"]
+LARGE_TRI = (3300, 10, 2, 3000)     # (N, k, d, landmarks): bit-packed / word-sharing races need thousands of landmarks
 
 
 # ----------------------------------------------------------------------------- translator + Coq
@@ -202,6 +206,28 @@ def gen_cases(ctx, quick):
                 cases.append({"kind": "run", "id": cid, "region": region, "N": N, "k": k, "d": d, "L": L,
                               "dim": dim, "seed": rng.randrange(1, 10 ** 6), "int": rng.choice([0, 1])})
                 cid += 1
+    return cases
+
+
+def large_cases(ctx, quick):
+    """always-on large cases (own harness invocation, five combinations): races that need thousands of iterations
+    per thread or a size threshold to show — triangulate with 3000 landmarks (64 flags of a std::vector<bool> share
+    a word), Barnes-Hut t-SNE on 1200 points (above any plausible `if (N >= 1000)`), exact t-SNE"""
+    rng = ctx.rng
+    N, k, d, L = LARGE_TRI
+    cases = [{"kind": "run", "id": 7000, "region": "tri", "N": N, "k": k, "d": d, "L": L, "dim": 3,
+              "seed": rng.randrange(1, 10 ** 6), "int": 0, "combos": LARGE_COMBOS},
+             {"kind": "run", "id": 7001, "region": "tsne", "N": 1200, "k": 10, "d": 2, "L": 50, "dim": 3,
+              "seed": rng.randrange(1, 10 ** 6), "int": 0, "combos": LARGE_COMBOS},
+             {"kind": "run", "id": 7002, "region": "tsne", "N": 300, "k": 10, "d": 1, "L": 50, "dim": 3,
+              "seed": rng.randrange(1, 10 ** 6), "int": 0, "combos": LARGE_COMBOS}]
+    if not quick:
+        cases += [{"kind": "run", "id": 7003, "region": "mdsl", "N": 2000, "k": 10, "d": 2, "L": 1500, "dim": 3,
+                   "seed": rng.randrange(1, 10 ** 6), "int": 0, "combos": LARGE_COMBOS},
+                  {"kind": "run", "id": 7004, "region": "isol", "N": 1500, "k": 10, "d": 2, "L": 200, "dim": 3,
+                   "seed": rng.randrange(1, 10 ** 6), "int": 0, "combos": LARGE_COMBOS},
+                  {"kind": "run", "id": 7005, "region": "tsne", "N": 2500, "k": 20, "d": 2, "L": 50, "dim": 4,
+                   "seed": rng.randrange(1, 10 ** 6), "int": 0, "combos": LARGE_COMBOS}]
     return cases
 
 
@@ -360,6 +386,13 @@ def judge(ctx, cases, res, combos, stats):
             elif c["region"] in DENSE:
                 if row["hash"] != ref["hash"]:
                     bad = "dense result differs from the single-threaded one (max abs diff %.3g)" % row["maxd"]
+            elif c["region"] in ITER:
+                scale = max(ref["maxr"], 1e-300)
+                if not (row["maxd"] <= TOL_ITER * scale) or row["nonfinite"] != ref["nonfinite"]:
+                    bad = ("the t-SNE map after %d iterations differs from the single-threaded one by %.3g (largest "
+                           "entry %.3g, allowed %.0e relative)" % (c["L"] + 1, row["maxd"], scale, TOL_ITER))
+                elif row["hash"] != ref["hash"]:
+                    stats["reassociation_only"] = stats.get("reassociation_only", 0) + 1
             else:
                 scale = max(ref["maxr"], 1e-300)
                 if not (row["maxd"] <= TOL * scale):
@@ -377,46 +410,134 @@ def judge(ctx, cases, res, combos, stats):
 
 EMBED_DENSE = ("isomap", "lisomap", "mds", "lmds", "dm")
 EMBED_SPARSE = ("klle", "kltsa", "hlle")
+EMBED_ITER = ("tsne", "spe", "ms")          # iterative, no eigenproblem: compared entrywise / through the logged error
+EMBED_OTHER = ("npe", "lltsa", "la", "lpp", "kpca", "pca", "ra", "fa", "pt")
 EMBED_TOL_DENSE = 1e-10      # Gram matrix of the embedding, relative to its largest entry
 EMBED_TOL_SPARSE = 1e-4      # tolerance stream: null-space eigenproblems amplify the re-association of the
                              # triplet sums by their conditioning (measured: 1e-11 .. 5e-9)
+EMBED_TOL_RANDOMIZED = 1e-7  # randomized eigensolver (power iterations through Eigen's threaded products)
+EMBED_TOL_OTHER = 1e-6       # methods without an OpenMP region of their own (Eigen kernels only): gross differences
+EMBED_TOL_ITER = 1e-7        # t-SNE after ~50 iterations: a re-associated sum moves the logged error by ~1e-13 relative
+                             # (measured with a race-free parallel variant); a race moves it by 1e-4 .. 1e-2
+# public-API method (harness name) -> its header under include/tapkee/methods/
+METHOD_HEADERS = {
+    "klle": "kernel_locally_linear_embedding.hpp", "kltsa": "kernel_local_tangent_space_alignment.hpp",
+    "hlle": "hessian_locally_linear_embedding.hpp", "dm": "diffusion_map.hpp", "isomap": "isomap.hpp",
+    "lisomap": "landmark_isomap.hpp", "mds": "multidimensional_scaling.hpp",
+    "lmds": "landmark_multidimensional_scaling.hpp", "npe": "neighborhood_preserving_embedding.hpp",
+    "lltsa": "linear_local_tangent_space_alignment.hpp", "la": "laplacian_eigenmaps.hpp",
+    "lpp": "locality_preserving_projections.hpp", "spe": "stochastic_proximity_embedding.hpp",
+    "kpca": "kernel_pca.hpp", "pca": "pca.hpp", "ra": "random_projection.hpp", "fa": "factor_analysis.hpp",
+    "tsne": "tsne.hpp", "ms": "manifold_sculpting.hpp",
+}
+# parameter variants that steer a method into its different code paths
+METHOD_VARIANTS = {
+    "tsne": [{"theta": 0.5, "stop": 50}, {"theta": 0, "stop": 50}],
+    "lmds": [{"ratio": 0.5}, {"ratio": 0.92, "eig": "randomized"}],
+    "lisomap": [{"ratio": 0.5}],
+    "spe": [{"maxit": 30}], "ms": [{"maxit": 5}],
+}
+DENSE_EIG_CAP = 400          # methods with an N x N dense eigenproblem switch to the randomized solver above this
 
 
-def embed_runs(ctx, stats, only=None):
-    """thorough tier: whole methods through tapkee::embed under the thread/schedule combinations; the Gram
-    matrix E E^T of the embedding (free of eigenvector sign / rotation inside multiple eigenvalues) is compared"""
-    exe = ctx.cpp("harness/c15_embed.cpp", defines=["nowait=schedule(runtime) nowait"], timeout=1500)
-    combos = ["1:1:0", "2:1:0", "3:2:1", "8:2:1", "16:3:0", "16:1:1"]
-    rng = ctx.rng
-    cases = []
-    for m in EMBED_DENSE + EMBED_SPARSE:
-        for N in (24, 60, 150):
-            d = rng.choice([1, 2]) if m != "hlle" else rng.choice([1, 2])
-            k = {1: 6, 2: 9}[d] + rng.choice([0, 2]) if m == "hlle" else rng.choice([6, 8, 10])
-            cases.append({"kind": "embed", "id": len(cases), "method": m, "N": N, "D": 3, "k": k, "d": d,
-                          "seed": rng.randrange(1, 10 ** 6)})
-    if only is not None:
-        cases = [dict(only, id=0)]
-    inp = "COMBOS " + " ".join(combos) + "\n" + "".join(
-        "CASE %d %s %d %d %d %d %d\n" % (c["id"], c["method"], c["N"], c["D"], c["k"], c["d"], c["seed"]) for c in cases)
-    todo = list(cases)
-    rows = {c["id"]: [] for c in cases}
-    ended = set()
-    crashed = {}
+def _includes_of(path):
+    try:
+        txt = open(path, errors="replace").read()
+    except OSError:
+        return []
+    return re.findall(r'#\s*include\s*[<"](tapkee/[^>"]+)[>"]', txt)
+
+
+def include_closure(repo, rel):
+    """tapkee headers transitively included by include/<rel>"""
+    inc = os.path.join(repo, "include")
+    seen, todo = set(), [rel]
     while todo:
-        inp = "COMBOS " + " ".join(combos) + "\n" + "".join(
-            "CASE %d %s %d %d %d %d %d\n" % (c["id"], c["method"], c["N"], c["D"], c["k"], c["d"], c["seed"]) for c in todo)
-        r = ctx.run(exe, inp, timeout=900)
+        h = todo.pop()
+        if h in seen:
+            continue
+        seen.add(h)
+        todo += _includes_of(os.path.join(inc, h))
+    return seen
+
+
+def methods_reaching(repo, region_file):
+    """public-API methods whose implementation includes the header of a region; the most specific first.
+    region_file is relative to the repository (include/tapkee/... or src/...)."""
+    if not region_file.startswith("include/"):
+        return []
+    rel = region_file[len("include/"):]
+    base = include_closure(repo, "tapkee/methods/base.hpp") | include_closure(repo, "tapkee/defines.hpp")
+    hits = []
+    for m, h in METHOD_HEADERS.items():
+        cl = include_closure(repo, "tapkee/methods/" + h)
+        if rel in cl:
+            hits.append((0 if rel not in base else 1, m))
+    if not hits or all(h[0] == 1 for h in hits):
+        # a header every method sees (neighbours, eigendecomposition helpers, utilities): all of them
+        hits = [(1, m) for m in METHOD_HEADERS]
+    specific = [m for z, m in hits if z == 0]
+    return specific or [m for _, m in hits]
+
+
+def sizes_for_region(desc, cap=4000):
+    """problem sizes on both sides of every threshold of the region's `if (...)` clause; the loop bound tells
+    which variable is the trip count.  Returns (sizes, explanation)."""
+    ths = [t for t in (desc.get("if_thresholds") or []) if 4 <= t[2] <= cap]
+    bounds = [l.get("hi", "") for l in desc.get("loops", [])]
+    if not ths:
+        return [60, 300, 1200], "no `if` clause: default sizes; loop bound(s) %s" % bounds
+    sizes = set()
+    for var, op, val in ths:
+        below = max(8, val - 1 if op in (">=", "<") else val)
+        above = min(cap, max(val + val // 5, val + 8))
+        sizes.update([below, above, min(cap, 2 * val)] if val <= cap // 2 else [below, above])
+    return sorted(sizes), "`if (%s)`: sizes below and above the threshold(s) %s; loop bound(s) %s" % (
+        desc.get("if"), [t[2] for t in ths], bounds)
+
+
+def embed_case(cid, m, N, rng, **opts):
+    d = 2
+    k = 12 if m == "hlle" else 10
+    if m in EMBED_DENSE + EMBED_OTHER and N > DENSE_EIG_CAP and "eig" not in opts and m not in ("lmds", "lisomap", "ra", "pt"):
+        opts["eig"] = "randomized"
+    if m in ("lmds", "lisomap") and N * float(opts.get("ratio", 0.5)) > DENSE_EIG_CAP and "eig" not in opts:
+        opts["eig"] = "randomized"
+    return {"kind": "embed", "id": cid, "method": m, "N": N, "D": 3, "k": min(k, N - 1), "d": d,
+            "seed": rng.randrange(1, 10 ** 6), "opts": {k_: opts[k_] for k_ in sorted(opts)}}
+
+
+def embed_line(c):
+    return "CASE %d %s %d %d %d %d %d%s\n" % (c["id"], c["method"], c["N"], c["D"], c["k"], c["d"], c["seed"],
+                                             "".join(" %s=%s" % kv for kv in sorted(c.get("opts", {}).items())))
+
+
+def embed_build(ctx):
+    return ctx.cpp("harness/c15_embed.cpp", defines=["nowait=schedule(runtime) nowait"], timeout=1500)
+
+
+def embed_exec(ctx, exe, cases, combos, timeout=1200):
+    """id -> {"rows": [fields...], "logs": {combo index: [(iteration, error)]}, "ended", "crash"}"""
+    res = {c["id"]: {"rows": [], "logs": {}, "ended": False, "crash": None} for c in cases}
+    todo = list(cases)
+    while todo:
+        inp = "COMBOS " + " ".join(combos) + "\n" + "".join(embed_line(c) for c in todo)
+        r = ctx.run(exe, inp, timeout=timeout, env={"OMP_WAIT_POLICY": "passive", "GOMP_SPINCOUNT": "0"})
         cur = None
         for line in r.out.splitlines():
             w = line.split()
             try:
                 if w and w[0] == "C":
                     cur = int(w[1])
-                elif w and w[0] == "R" and int(w[1]) in rows:
-                    rows[int(w[1])].append(w[2:])
-                elif w and w[0] == "E":
-                    ended.add(int(w[1]))
+                elif w and w[0] == "R" and int(w[1]) in res:
+                    res[int(w[1])]["rows"].append(w[2:])
+                elif w and w[0] == "L" and int(w[1]) in res:
+                    key = ":".join(w[2:5])
+                    res[int(w[1])]["logs"].setdefault(key, []).append((int(w[5]), float.fromhex(w[6])))
+                elif w and w[0] == "E" and int(w[1]) in res:
+                    res[int(w[1])]["ended"] = True
+                elif w and w[0] == "BAD" and int(w[1]) in res:
+                    res[int(w[1])]["bad"] = True
             except (ValueError, IndexError):
                 continue
         if r.rc == 0 and not r.timed_out:
@@ -424,42 +545,174 @@ def embed_runs(ctx, stats, only=None):
         ids = [c["id"] for c in todo]
         if cur is None or cur not in ids:
             cur = ids[0]
-        crashed[cur] = "timeout" if r.timed_out else (r.sanitizer or r.err[-600:] or "rc=%d" % r.rc)
+        res[cur]["crash"] = ("timeout after %ds" % timeout) if r.timed_out else (r.sanitizer or r.err[-600:] or "rc=%d" % r.rc)
         todo = todo[ids.index(cur) + 1:]
+    return res
+
+
+def embed_tol(c):
+    m = c["method"]
+    if m in EMBED_ITER:
+        return EMBED_TOL_ITER
+    if c.get("opts", {}).get("eig") == "randomized":
+        return EMBED_TOL_RANDOMIZED if m in EMBED_DENSE else EMBED_TOL_OTHER
+    if m in EMBED_DENSE:
+        return EMBED_TOL_DENSE
+    return EMBED_TOL_SPARSE if m in EMBED_SPARSE else EMBED_TOL_OTHER
+
+
+def embed_judge(ctx, cases, res, combos, stats, report=True):
+    """the spec on the implementation's own output: every combination gives the embedding of the single thread.
+    Returns (number of evaluations, [(case, why)]); with report=True the failures become violations."""
     n = 0
-    worst = {}
+    worst = stats.setdefault("_embed_worst", {})
+    bad = []
+
+    def fail(c, why):
+        bad.append((c, why))
+        if report:
+            ctx.violation(dict(c, combos=combos), why)
     for c in cases:
-        if c["id"] in crashed:
-            ctx.violation(dict(c, combos=combos), "tapkee::embed aborts / hangs under some thread count: " + crashed[c["id"]][:600])
+        r = res[c["id"]]
+        if r["crash"]:
+            fail(c, "tapkee::embed aborts / hangs under some thread count: " + str(r["crash"])[:600])
             continue
-        rs = rows[c["id"]]
-        if c["id"] not in ended or len(rs) != len(combos):
-            ctx.violation(dict(c, combos=combos), "incomplete output of the embedding harness for this case")
+        if r.get("bad"):
+            stats["embed_bad_parameters"] = stats.get("embed_bad_parameters", 0) + 1
+            continue
+        rs = r["rows"]
+        if not r["ended"] or len(rs) != len(combos):
+            fail(c, "incomplete output of the embedding harness for this case (%d of %d result lines)" % (len(rs), len(combos)))
             continue
         n += len(rs)
-        if any(len(w) >= 4 and w[3] == "EXC" for w in rs):
-            kinds = {" ".join(w[3:]) for w in rs}
-            if len(kinds) > 1:
-                ctx.violation(dict(c, combos=combos), "the outcome of embed (exception or not) depends on the thread count: %s" % sorted(kinds))
-            else:
-                stats["embed_exceptions"] = stats.get("embed_exceptions", 0) + 1
+        kinds = [(" ".join(w[3:5]) if len(w) > 3 and w[3] == "EXC" else (w[3] if len(w) > 3 and w[3] == "STOP" else "OK")) for w in rs]
+        if len(set(kinds)) > 1:
+            fail(c, "the outcome of embed (exception / early stop / result) depends on the thread count: %s" % kinds)
             continue
-        tol = EMBED_TOL_DENSE if c["method"] in EMBED_DENSE else EMBED_TOL_SPARSE
+        if kinds[0].startswith("EXC"):
+            stats["embed_exceptions"] = stats.get("embed_exceptions", 0) + 1
+            continue
+        tol = embed_tol(c)
+        failed = False
+        # the library's own progress lines (t-SNE): "Iteration i: error is C"
+        ref_log = r["logs"].get(combos[0])
+        for cb in combos[1:]:
+            lg = r["logs"].get(cb)
+            if (lg is None) != (ref_log is None) or (lg is not None and [x[0] for x in lg] != [x[0] for x in ref_log]):
+                fail(c, "%s: the progress lines logged by the library differ between 1 thread and %s" % (c["method"], cb))
+                failed = True
+                break
+            for (it, a), (_, b) in zip(ref_log or [], lg or []):
+                if a == b:
+                    continue
+                rel = abs(a - b) / max(abs(a), 1e-300) if (a == a and b == b) else float("inf")
+                worst[c["method"]] = max(worst.get(c["method"], 0.0), rel)
+                if not (rel <= tol):
+                    fail(c, "%s (N=%d, %s): the error the library logs at iteration %d is %r with 1 thread and %r with "
+                            "threads:schedule:chunk=%s (relative difference %.3g, allowed %.0e for re-associated sums)" % (
+                                c["method"], c["N"], c.get("opts"), it, a, b, cb, rel, tol))
+                    failed = True
+                    break
+                stats["embed_reassociation_only"] = stats.get("embed_reassociation_only", 0) + 1
+            if failed:
+                break
+        if failed or kinds[0] == "STOP":
+            continue
         for w in rs[1:]:
             try:
                 maxd, maxr, nonfin = float.fromhex(w[5]), float.fromhex(w[6]), int(w[7])
+                maxe, maxa = (float.fromhex(w[8]), float.fromhex(w[9])) if len(w) > 9 else (0.0, 1.0)
             except (ValueError, IndexError):
-                maxd, maxr, nonfin = float("inf"), 1.0, 0
+                maxd, maxr, nonfin, maxe, maxa = float("inf"), 1.0, 0, float("inf"), 1.0
             rel = maxd / max(maxr, 1e-300)
+            what = "Gram matrix"
+            if c["method"] in EMBED_ITER:      # no sign / rotation freedom: the entries themselves
+                rel, what = max(rel, maxe / max(maxa, 1e-300)), "entries / Gram matrix"
             worst[c["method"]] = max(worst.get(c["method"], 0.0), rel)
-            if not (rel <= tol) or (w[3:5] != rs[0][3:5]):
-                ctx.violation(dict(c, combos=combos),
-                              "embedding of %s differs between 1 thread and threads=%s schedule=%s chunk=%s: Gram matrix "
-                              "relative difference %.3g (allowed %.0e)" % (c["method"], w[0], w[1], w[2], rel, tol))
+            if not (rel <= tol) or (w[3:5] != rs[0][3:5]) or nonfin != (int(rs[0][7]) if len(rs[0]) > 7 else 0):
+                fail(c, "embedding of %s (N=%d, %s) differs between 1 thread and threads=%s schedule=%s chunk=%s: %s "
+                        "relative difference %.3g (allowed %.0e)" % (c["method"], c["N"], c.get("opts"), w[0], w[1], w[2],
+                                                                     what, rel, tol))
                 break
-    stats["embed_worst_relative_gram_difference"] = {k: float("%.3g" % v) for k, v in worst.items()}
+    return n, bad
+
+
+def embed_cases_always(ctx):
+    rng = ctx.rng
+    cases = []
+    for m in EMBED_DENSE + EMBED_SPARSE:
+        for N in (24, 60, 150):
+            d = rng.choice([1, 2])
+            k = {1: 6, 2: 9}[d] + rng.choice([0, 2]) if m == "hlle" else rng.choice([6, 8, 10])
+            cases.append({"kind": "embed", "id": len(cases), "method": m, "N": N, "D": 3, "k": k, "d": d,
+                          "seed": rng.randrange(1, 10 ** 6), "opts": {}})
+    # large cases: races that need many iterations per thread / a size threshold to show
+    cases.append(embed_case(len(cases), "tsne", 1200, rng, theta=0.5, stop=50))
+    cases.append(embed_case(len(cases), "tsne", 300, rng, theta=0, stop=50))
+    cases.append(embed_case(len(cases), "lmds", 3300, rng, ratio=0.92, eig="randomized"))
+    cases.append(embed_case(len(cases), "lisomap", 600, rng, ratio=0.5))
+    return cases
+
+
+def embed_runs(ctx, stats, only=None):
+    """thorough tier: whole methods through tapkee::embed under the thread/schedule combinations"""
+    exe = embed_build(ctx)
+    combos = ["1:1:0", "2:1:0", "3:2:1", "8:2:1", "16:3:0", "16:1:1"]
+    cases = embed_cases_always(ctx) if only is None else [dict(only, id=0)]
+    if only is not None and only.get("combos"):
+        combos = list(only["combos"])
+    res = embed_exec(ctx, exe, cases, combos)
+    n, _ = embed_judge(ctx, cases, res, combos, stats)
+    stats["embed_worst_relative_difference"] = {k: float("%.3g" % v) for k, v in stats.pop("_embed_worst", {}).items()}
     stats["embed_cases"] = len(cases)
     return n
+
+
+API_COMBOS = ["1:1:0", "2:1:0", "8:1:0", "16:1:0"]
+
+
+def api_search(ctx, desc, stats):
+    """search phase for a region in code the region table does not know: the public-API methods that include
+    the region's header are run (tapkee::embed, fixed random stream) at problem sizes on both sides of the
+    thresholds of the region's `if` clause, under 1, 2, 8 and 16 threads.  Returns (case, why) or None."""
+    methods = methods_reaching(ctx.repo, desc.get("file", ""))
+    sizes, how = sizes_for_region(desc)
+    if not methods:
+        ctx.note("search: %s is not reachable from a tapkee::embed method (not under include/)" % desc["name"])
+        return None
+    rng = ctx.rng
+    cases = []
+    for m in methods:
+        for N in sizes:
+            for var in METHOD_VARIANTS.get(m, [{}]):
+                if m == "tsne" and float(var.get("theta", 0.5)) == 0 and N > 1500:
+                    continue
+                if m in EMBED_SPARSE + ("ms",) and N > 600:
+                    continue
+                cases.append(embed_case(9000 + len(cases), m, N, rng, **var))
+    ctx.note("search (%s): methods %s; %s; %d cases x threads {1,2,8,16}" % (desc["name"], methods, how, len(cases)))
+    try:
+        exe = embed_build(ctx)
+    except vlib.BuildError as ex:
+        ctx.note("search: the embedding harness does not build against this tree: " + str(ex)[-300:])
+        return None
+    # the largest sizes first: that is where a conditional region runs in parallel
+    cases.sort(key=lambda c: -c["N"])
+    for rep in range(2 if ctx.quick else 5):
+        res = embed_exec(ctx, exe, cases, API_COMBOS)
+        n, bad = embed_judge(ctx, cases, res, API_COMBOS, stats, report=False)
+        stats["search_runs"] = stats.get("search_runs", 0) + n
+        if bad:
+            stats.pop("_embed_worst", None)
+            c, why = bad[0]
+            below = [x for x in cases if x["method"] == c["method"] and x["N"] < c["N"] and x.get("opts") == c.get("opts")
+                     and x["id"] not in {b[0]["id"] for b in bad}]
+            if below:
+                why += " (the same method with N=%s, below the threshold, gives identical results for every thread count)" % (
+                    sorted({x["N"] for x in below}))
+            return dict(c, combos=API_COMBOS), why
+    stats.pop("_embed_worst", None)
+    return None
 
 
 def tsan_build(ctx):
@@ -508,17 +761,25 @@ def tsan_races(ctx, texe, cases, combos):
     return out
 
 
-def witness_cases(ctx, name, quick):
-    """harness cases that exercise the region whose descriptor is `name`"""
+def witness_cases(ctx, name, quick, desc=None):
+    """harness cases that exercise the region whose descriptor is `name`: two moderate sizes, sizes above the
+    thresholds of an `if` clause of the region, and (triangulate) one case with thousands of landmarks"""
     regs = []
     for frag, rs in REGION_OF_FUNC.items():
         if frag in name:
             regs = rs
     cases = []
+    shapes = [(40, 10, 2, 20), (96, 12, 3, 48)]
+    if desc is not None and desc.get("if_thresholds"):
+        for N in sizes_for_region(desc, cap=2000)[0]:
+            if N > 96:
+                shapes.append((N, 12, 2, N // 2))
     for j, region in enumerate(regs):
-        for N, k, d in ((40, 10, 2), (96, 12, 3)):
+        for N, k, d, L in shapes + ([LARGE_TRI] if region == "tri" else []):
+            if region in SPARSE and N > 400:
+                continue
             cases.append({"kind": "run", "id": 9000 + 10 * j + len(cases), "region": region, "N": N, "k": k, "d": d,
-                          "L": N // 2, "dim": 3, "seed": 4242 + N, "int": 0})
+                          "L": L, "dim": 3, "seed": 4242 + N, "int": 0})
     return cases
 
 
@@ -532,7 +793,7 @@ def search(ctx, exe, det, tr, stats):
             continue
         desc = tr["regions"][i]
         w = rg["witness"]
-        cases = witness_cases(ctx, rg["name"], ctx.quick)
+        cases = witness_cases(ctx, rg["name"], ctx.quick, desc)
         why = None
         definite = False
         if w is not None:
@@ -558,6 +819,14 @@ def search(ctx, exe, det, tr, stats):
                    "which iteration the same thread ran before" % (rg["name"], ", ".join(rg["stale"])))
         # confirmation on the implementation
         observed = None
+        if not cases and why is not None:
+            # a region in code the region table does not know: no region-level driver exists; run the public-API
+            # methods that reach it, at sizes on both sides of the thresholds of its `if` clause
+            hit = api_search(ctx, desc, stats)
+            if hit is not None:
+                ctx.violation(hit[0], why + " — confirmed through the public API: " + hit[1])
+                found = True
+                continue
         if cases:
             for rep in range(3 if ctx.quick else 10):
                 res = run_cases(ctx, exe, cases, combos, timeout=600)
@@ -692,6 +961,12 @@ def run(ctx):
     cases += gen_cases(ctx, quick)
     res = run_cases(ctx, exe, cases, combos, timeout=1500 if not quick else 300)
     n_eval = judge(ctx, cases, res, combos, stats)
+    large = large_cases(ctx, quick)
+    res_l = run_cases(ctx, exe, large, LARGE_COMBOS, timeout=1500 if not quick else 300)
+    n_eval += judge(ctx, large, res_l, LARGE_COMBOS, stats)
+    res.update(res_l)
+    cases += large
+    hist["large"] = len(large)
     stats["t_runs_done_s"] = round(ctx.elapsed(), 1)
     if not table_ok and tr is not None and det.get("regions") is not None:
         search(ctx, exe, det, tr, stats)
